@@ -7,6 +7,9 @@ import (
 	"time"
 
 	plistoffsets "github.com/segmentio/kafka-go/protocol/listoffsets"
+	pmetadata "github.com/segmentio/kafka-go/protocol/metadata"
+	poffsetcommit "github.com/segmentio/kafka-go/protocol/offsetcommit"
+	poffsetfetch "github.com/segmentio/kafka-go/protocol/offsetfetch"
 )
 
 // C19: offset and metadata queries report exactly the brokers' state.
@@ -224,4 +227,194 @@ func VH_C19_ClientListOffsets(T, P int) {
 		}
 	}
 	vhReach("c19-client-listoffsets")
+}
+
+// ---- Client.Metadata / OffsetFetch / OffsetCommit: the answer of the broker (a protocol message with symbolic
+// values, returned by a fake RoundTripper that also records the request) is mapped field by field ----
+
+type vhScriptedBroker struct {
+	answer Response
+	asked  Request
+}
+
+func (b *vhScriptedBroker) RoundTrip(ctx context.Context, addr net.Addr, req Request) (Response, error) {
+	b.asked = req
+	return b.answer, nil
+}
+
+func VH_C19_ClientMetadata(B, P int) {
+	res := &pmetadata.Response{ControllerID: vhInt32("controller"), ClusterID: "c"}
+	for i := 0; i < B; i++ {
+		res.Brokers = append(res.Brokers, pmetadata.ResponseBroker{NodeID: vhInt32("broker_id"), Host: vhString("host", 1), Port: vhInt32("port"), Rack: vhString("rack", 1)})
+	}
+	for i := 0; i < B; i++ {
+		for j := i + 1; j < B; j++ {
+			vhAssume(res.Brokers[i].NodeID != res.Brokers[j].NodeID)
+		}
+	}
+	topic := pmetadata.ResponseTopic{Name: "t", ErrorCode: vhInt16("topic_error"), IsInternal: vhBool("internal")}
+	leaders := make([]int, P)
+	errPartition, errCode := vhChoose("err_partition", P), vhInt16("err_code")
+	vhAssume(errCode != 0)
+	for p := 0; p < P; p++ {
+		leaders[p] = vhChoose("leader", B)
+		rp := pmetadata.ResponsePartition{PartitionIndex: int32(p), LeaderID: res.Brokers[leaders[p]].NodeID}
+		// replicas: every broker, rotated by p; in-sync: the leader only
+		for k := 0; k < B; k++ {
+			rp.ReplicaNodes = append(rp.ReplicaNodes, res.Brokers[(p+k)%B].NodeID)
+		}
+		rp.IsrNodes = []int32{res.Brokers[leaders[p]].NodeID}
+		if p == errPartition {
+			rp.ErrorCode = errCode
+		}
+		topic.Partitions = append(topic.Partitions, rp)
+	}
+	res.Topics = []pmetadata.ResponseTopic{topic}
+	br := &vhScriptedBroker{answer: res}
+	c := &Client{Addr: TCP("vh:9092"), Transport: br}
+	got, err := c.Metadata(context.Background(), &MetadataRequest{Topics: []string{"t"}})
+	vhAssert(err == nil && got != nil, "metadata-roundtrip-ok")
+	asked, _ := br.asked.(*pmetadata.Request)
+	vhAssert(asked != nil && len(asked.TopicNames) == 1 && asked.TopicNames[0] == "t", "metadata-request-names-the-topics")
+	same := func(b Broker, i int) bool {
+		w := res.Brokers[i]
+		return vhAll(b.ID == int(w.NodeID), b.Port == int(w.Port), vhStrEq(b.Host, w.Host), vhStrEq(b.Rack, w.Rack))
+	}
+	vhAssert(len(got.Brokers) == B, "metadata-broker-count")
+	for i := 0; i < B && i < len(got.Brokers); i++ {
+		vhAssert(same(got.Brokers[i], i), "metadata-brokers-are-the-clusters")
+		if res.Brokers[i].NodeID == res.ControllerID {
+			vhAssert(same(got.Controller, i), "metadata-controller-is-the-broker-with-the-controller-id")
+		}
+	}
+	vhAssert(len(got.Topics) == 1 && len(got.Topics[0].Partitions) == P, "metadata-topic-and-partition-count")
+	gt := got.Topics[0]
+	vhAssert(vhAll(gt.Name == "t", gt.Internal == topic.IsInternal), "metadata-topic-fields")
+	if topic.ErrorCode == 0 {
+		vhAssert(gt.Error == nil, "metadata-no-topic-error")
+	} else {
+		vhAssert(gt.Error != nil && errors.Is(gt.Error, Error(topic.ErrorCode)), "metadata-topic-error-is-the-brokers")
+	}
+	for p := 0; p < P && p < len(gt.Partitions); p++ {
+		gp := gt.Partitions[p]
+		vhAssert(vhAll(gp.Topic == "t", gp.ID == p), "metadata-partition-identity")
+		vhAssert(same(gp.Leader, leaders[p]), "metadata-leader-is-the-broker-with-the-leader-id")
+		vhAssert(len(gp.Replicas) == B && len(gp.Isr) == 1, "metadata-replica-and-isr-count")
+		for k := 0; k < B && k < len(gp.Replicas); k++ {
+			vhAssert(same(gp.Replicas[k], (p+k)%B), "metadata-replicas-in-order")
+		}
+		if len(gp.Isr) == 1 {
+			vhAssert(same(gp.Isr[0], leaders[p]), "metadata-isr")
+		}
+		if p == errPartition {
+			vhAssert(gp.Error != nil && errors.Is(gp.Error, Error(errCode)), "metadata-partition-error-on-its-partition")
+		} else {
+			vhAssert(gp.Error == nil, "metadata-partition-error-does-not-leak")
+		}
+	}
+	vhReach("c19-client-metadata")
+}
+
+func VH_C19_ClientOffsetFetch(T, P int) {
+	res := &poffsetfetch.Response{ErrorCode: vhInt16("group_error")}
+	req := &OffsetFetchRequest{GroupID: "g", Topics: map[string][]int{}}
+	committed := map[string][]int64{}
+	errTopic, errPartition, errCode := vhChoose("err_topic", T), vhChoose("err_partition", P), vhInt16("err_code")
+	vhAssume(errCode != 0)
+	for t := 0; t < T; t++ {
+		name := vhTopicName(t)
+		rt := poffsetfetch.ResponseTopic{Name: name}
+		for p := 0; p < P; p++ {
+			off := vhInt64("committed")
+			committed[name] = append(committed[name], off)
+			rp := poffsetfetch.ResponsePartition{PartitionIndex: int32(p), CommittedOffset: off, Metadata: vhString("meta", 1)}
+			if t == errTopic && p == errPartition {
+				rp.ErrorCode = errCode
+			}
+			rt.Partitions = append(rt.Partitions, rp)
+			req.Topics[name] = append(req.Topics[name], p)
+		}
+		res.Topics = append(res.Topics, rt)
+	}
+	br := &vhScriptedBroker{answer: res}
+	c := &Client{Addr: TCP("vh:9092"), Transport: br}
+	got, err := c.OffsetFetch(context.Background(), req)
+	vhAssert(err == nil && got != nil, "offsetfetch-roundtrip-ok")
+	asked, _ := br.asked.(*poffsetfetch.Request)
+	vhAssert(asked != nil && asked.GroupID == "g" && len(asked.Topics) == T, "offsetfetch-request-names-group-and-topics")
+	for _, at := range asked.Topics {
+		vhAssert(len(at.PartitionIndexes) == P, "offsetfetch-request-lists-the-partitions")
+		for i, idx := range at.PartitionIndexes {
+			vhAssert(int(idx) == i, "offsetfetch-request-partition-indexes")
+		}
+	}
+	if res.ErrorCode == 0 {
+		vhAssert(got.Error == nil, "offsetfetch-no-group-error")
+	} else {
+		vhAssert(got.Error != nil && errors.Is(got.Error, Error(res.ErrorCode)), "offsetfetch-group-error-is-the-brokers")
+	}
+	for t := 0; t < T; t++ {
+		name := vhTopicName(t)
+		vhAssert(len(got.Topics[name]) == P, "offsetfetch-one-entry-per-partition")
+		for p := 0; p < P && p < len(got.Topics[name]); p++ {
+			gp := got.Topics[name][p]
+			vhAssert(vhAll(gp.Partition == p, gp.CommittedOffset == committed[name][p], vhStrEq(gp.Metadata, res.Topics[t].Partitions[p].Metadata)), "offsetfetch-committed-offset-is-the-brokers")
+			if t == errTopic && p == errPartition {
+				vhAssert(gp.Error != nil && errors.Is(gp.Error, Error(errCode)), "offsetfetch-error-on-its-partition")
+			} else {
+				vhAssert(gp.Error == nil, "offsetfetch-error-does-not-leak")
+			}
+		}
+	}
+	vhReach("c19-client-offsetfetch")
+}
+
+func VH_C19_ClientOffsetCommit(T, P int) {
+	vhConcreteClock(true)
+	res := &poffsetcommit.Response{}
+	req := &OffsetCommitRequest{GroupID: "g", GenerationID: int(vhInt32("generation")), MemberID: "m", Topics: map[string][]OffsetCommit{}}
+	offsets := map[string][]int64{}
+	errTopic, errPartition, errCode := vhChoose("err_topic", T), vhChoose("err_partition", P), vhInt16("err_code")
+	vhAssume(errCode != 0)
+	for t := 0; t < T; t++ {
+		name := vhTopicName(t)
+		rt := poffsetcommit.ResponseTopic{Name: name}
+		for p := 0; p < P; p++ {
+			off := vhInt64("offset")
+			offsets[name] = append(offsets[name], off)
+			req.Topics[name] = append(req.Topics[name], OffsetCommit{Partition: p, Offset: off, Metadata: "x"})
+			rp := poffsetcommit.ResponsePartition{PartitionIndex: int32(p)}
+			if t == errTopic && p == errPartition {
+				rp.ErrorCode = errCode
+			}
+			rt.Partitions = append(rt.Partitions, rp)
+		}
+		res.Topics = append(res.Topics, rt)
+	}
+	br := &vhScriptedBroker{answer: res}
+	c := &Client{Addr: TCP("vh:9092"), Transport: br}
+	got, err := c.OffsetCommit(context.Background(), req)
+	vhAssert(err == nil && got != nil, "offsetcommit-roundtrip-ok")
+	asked, _ := br.asked.(*poffsetcommit.Request)
+	vhAssert(asked != nil && asked.GroupID == "g" && asked.MemberID == "m" && int(asked.GenerationID) == req.GenerationID && len(asked.Topics) == T, "offsetcommit-request-identity")
+	for _, at := range asked.Topics {
+		vhAssert(len(at.Partitions) == P, "offsetcommit-request-lists-the-partitions")
+		for i, ap := range at.Partitions {
+			vhAssert(vhAll(int(ap.PartitionIndex) == i, ap.CommittedOffset == offsets[at.Name][i], ap.CommittedMetadata == "x"), "offsetcommit-request-carries-the-offsets")
+		}
+	}
+	for t := 0; t < T; t++ {
+		name := vhTopicName(t)
+		vhAssert(len(got.Topics[name]) == P, "offsetcommit-one-entry-per-partition")
+		for p := 0; p < P && p < len(got.Topics[name]); p++ {
+			gp := got.Topics[name][p]
+			vhAssert(gp.Partition == p, "offsetcommit-partition-identity")
+			if t == errTopic && p == errPartition {
+				vhAssert(gp.Error != nil && errors.Is(gp.Error, Error(errCode)), "offsetcommit-error-on-its-partition")
+			} else {
+				vhAssert(gp.Error == nil, "offsetcommit-error-does-not-leak")
+			}
+		}
+	}
+	vhReach("c19-client-offsetcommit")
 }
